@@ -6,8 +6,10 @@ import (
 	"fmt"
 	"math/rand"
 	"regexp"
+	"runtime"
 	"strconv"
 	"sync"
+	"sync/atomic"
 
 	zed "github.com/brimdata/super"
 
@@ -68,14 +70,6 @@ func refFree(t Term) bool {
 			return false
 		}
 	}
-	return true
-}
-
-func isCanonicalListing(t Term) bool {
-	// Unions whose members are listed in an order the code's own sort would
-	// change cannot be judged here without transcribing CompareTypes; the
-	// random histories only use the "raw" method never, so this is unused
-	// for enabling and kept for documentation.
 	return true
 }
 
@@ -174,10 +168,17 @@ func seqHistory(c *core.Ctx, targets []Term, seed int64, n int, tvSeen map[strin
 
 // stressHistory runs G goroutines against one shared real context.  Every
 // call is logged with an invocation and a response event in a global order.
-func stressHistory(c *core.Ctx, targets []Term, seed int64, G, perG int, tvSeen map[string][]byte) (*history, *world) {
+//
+// same = contention mode: every goroutine issues the same calls, released
+// together by a barrier before each call, so that several goroutines try to
+// create the same type at the same moment.
+func stressHistory(c *core.Ctx, targets []Term, seed int64, G, perG int, same bool, tvSeen map[string][]byte) (*history, *world) {
 	rng := rand.New(rand.NewSource(seed))
 	u := newUniverse(rng.Intn(numUniverses))
 	h := &history{Kind: "stress", Universe: u.Idx, Seed: seed}
+	if same {
+		h.Kind = "contention"
+	}
 	w := newWorld(c, u, nil)
 	w.witness = map[string]any{"kind": "history", "history": h}
 	w.overlap = true
@@ -201,6 +202,19 @@ func stressHistory(c *core.Ctx, targets []Term, seed int64, G, perG int, tvSeen 
 			m := []string{"fields", "fields", "value", "translate", "decode", "tval", "tdef"}[rng.Intn(7)]
 			plans[g] = append(plans[g], planned{m: m, t: safe[rng.Intn(len(safe))], nm: []string{"m", "n"}[rng.Intn(2)]})
 		}
+		if same && g > 0 {
+			plans[g] = plans[0]
+		}
+	}
+	var arrived atomic.Int64
+	barrier := func(k int) {
+		if !same {
+			return
+		}
+		arrived.Add(1)
+		for arrived.Load() < int64((k+1)*G) {
+			runtime.Gosched()
+		}
 	}
 	var logMu sync.Mutex
 	var bufMu sync.Mutex
@@ -218,7 +232,7 @@ func stressHistory(c *core.Ctx, targets []Term, seed int64, G, perG int, tvSeen 
 			defer wg.Done()
 			own := map[string]zed.Type{} // types this goroutine holds pointers to
 			<-start
-			for _, pl := range plans[g] {
+			for k, pl := range plans[g] {
 				ev := Event{E: "call", P: g + 1, M: pl.m, OT: &pl.t}
 				var run func() callResult
 				switch pl.m {
@@ -269,6 +283,7 @@ func stressHistory(c *core.Ctx, targets []Term, seed int64, G, perG int, tvSeen 
 					r, err := w.prepare(ev)
 					bufMu.Unlock()
 					if err != nil {
+						barrier(k)
 						continue
 					}
 					run = r
@@ -280,6 +295,7 @@ func stressHistory(c *core.Ctx, targets []Term, seed int64, G, perG int, tvSeen 
 				logMu.Lock()
 				h.Events = append(h.Events, inv)
 				logMu.Unlock()
+				barrier(k)
 				r := run()
 				resp := TEvent{E: "resp", P: g + 1, R: w.sid(r.typ)}
 				if r.err != nil {
@@ -338,6 +354,17 @@ func validate(c *core.Ctx, hs []*history, count bool) (int, *core.TLCResult, err
 	if res == nil {
 		return -1, nil, err
 	}
+	if res.Status == "invariant" && res.Violated == "NotDone" {
+		// some behaviour of the spec consumed the whole trace
+		if count {
+			c.Add("traces_validated_against_impl", int64(len(hs)))
+		}
+		return -1, res, nil
+	}
+	if res.Status == "invariant" || res.Status == "property" {
+		// an invariant of the spec is false in a state of a real execution
+		return -1, res, fmt.Errorf("TLC reports %s %s while validating real histories", res.Status, res.Violated)
+	}
 	m := reHW.FindStringSubmatch(res.Out)
 	if m == nil {
 		if err == nil {
@@ -345,20 +372,13 @@ func validate(c *core.Ctx, hs []*history, count bool) (int, *core.TLCResult, err
 		}
 		return -1, res, err
 	}
-	if res.Status != "ok" && res.Status != "error" {
-		// an invariant of the spec is false in a state of a real execution
-		return -1, res, fmt.Errorf("TLC reports %s %s while validating real histories", res.Status, res.Violated)
-	}
 	hw, _ := strconv.Atoi(m[1])
 	total, _ := strconv.Atoi(m[2])
 	if total != len(all) {
 		return -1, res, fmt.Errorf("TLC read %d trace events, %d were written", total, len(all))
 	}
 	if hw == total {
-		if count {
-			c.Add("traces_validated_against_impl", int64(len(hs)))
-		}
-		return -1, res, nil
+		return -1, res, fmt.Errorf("TLC consumed the whole trace without reporting acceptance")
 	}
 	bad := 0
 	for i, h := range hs {
